@@ -124,3 +124,10 @@ check(
     "A float literal denotes the short decimal it prints as; format/parse demanded where %g prints the parts exactly; the fraction part may differ by 2e-9 relative (Fraction keeps ~9 decimals of a float numerator).",
     "4/C18",
 )
+check(
+    "C19",
+    "runtime monitoring: exhaustive differential sweep of the live table - every documented construction form of Scalar / Array / FixedArray / FractionScalar executed for every (unit, category of the unit's type) pair and compared pairwise (==, !=, fields), unit-only forms before and after the explicit-category forms; eval(repr()); bare-category objects against explicit defaults for every category",
+    "Exhaustive in the table dimension: all 1548 units, all 328 categories and all (unit, category of the same quantity type) pairs x 9 Scalar, 6 Array, 5 FixedArray and 5 FractionScalar forms (quick: one rotating value and container kind; thorough: 5 values x list/tuple/ndarray); every unit's default category exists and has the unit's quantity type; eval(repr(Scalar)) equal; Cls(category) == Cls(category, default value, default unit) for the four classes.",
+    "Equality is the classes' own == plus unit/category/type/quantity/dimension fields; finite values; values and container kinds are sampled.",
+    "4/C19",
+)
